@@ -7,6 +7,7 @@ CONSTANTS
   KwKinds = {"handled", "override"}
   KwShapes = {"40", "3x40"}
   KwDC = {"ties", "nan"}
+  AliasCombos <- CombosQuick
 INIT Init
 NEXT Next
 INVARIANT Export
